@@ -546,11 +546,24 @@ impl OwnedLazyValue {
 
         if status == HasEsc::None {
             Self(LazyPacked::NonEscStrRaw(raw))
+        } else if let Some(literal) = Self::from_literal(&raw) {
+            literal
         } else {
             Self(LazyPacked::Raw(LazyRaw {
                 raw,
                 parsed: AtomicPtr::new(std::ptr::null_mut()),
             }))
+        }
+    }
+
+    /// The raw form only represents numbers, strings, arrays and objects: `true`, `false` and
+    /// `null` have their parsed representation.
+    fn from_literal(raw: &FastStr) -> Option<Self> {
+        match raw.as_bytes() {
+            b"true" => Some(true.into()),
+            b"false" => Some(false.into()),
+            b"null" => Some(().into()),
+            _ => None,
         }
     }
 
@@ -586,6 +599,9 @@ impl<'de> From<LazyValue<'de>> for OwnedLazyValue {
         let raw = unsafe { lv.raw.as_faststr() };
         if lv.inner.no_escaped() && raw.as_bytes()[0] == b'"' {
             return Self(LazyPacked::NonEscStrRaw(raw));
+        }
+        if let Some(literal) = Self::from_literal(&raw) {
+            return literal;
         }
 
         Self(LazyPacked::Raw(LazyRaw {
